@@ -878,7 +878,28 @@ def _array_index(pe, st, args, t):
     raise _Abort("top", "unsupported index type")
 
 
-@pmodel("core::slice::<impl [T]>::len")
+@pmodel("core::slice::<impl [T]>::get")
+def _slice_get(pe, st, args, t):
+    base, idx = args
+    tgt = _deref(pe, st, base)
+    if tgt == TOP or idx == TOP or idx[0] != "int":
+        raise _Abort("top", "get() on an unknown slice/index")
+    if tgt[0] == "array":
+        n = len(tgt[1])
+    elif tgt[0] == "hview":
+        n = tgt[3] - tgt[2]
+    elif tgt[0] == "harr":
+        n = pe.heap.length(tgt)
+    else:
+        raise _Abort("top", "get() on a non-array")
+    if not 0 <= idx[2] < n:
+        return NONE
+    if base[1][0] == "place":
+        return some(("ref", ("place", base[1][1], base[1][2], tuple(base[1][3]) + ({"cidx": idx[2], "fe": False},))))
+    return some(("ref", ("const", pe._project(st, 0, tgt, [{"cidx": idx[2], "fe": False}]))))
+
+
+@pmodel("core::slice::<impl [T]>::len", "std::vec::Vec::<T, A>::len")
 def _slice_len(pe, st, args, t):
     v = _deref(pe, st, args[0])
     if v != TOP:
@@ -933,6 +954,131 @@ def _vec_index(pe, st, args, t):
             raise _Abort("diverge", "index out of range")
         return ("ref", ("const", v[1][i[2]]))
     raise _Abort("top", "Vec index on an unknown vector")
+
+
+# --------------------------------------------------------------------------
+# Option / Result / ControlFlow (documented semantics)
+# --------------------------------------------------------------------------
+OPTION, RESULT, CFLOW = "std::option::Option", "std::result::Result", "std::ops::ControlFlow"
+
+
+def _is_variant(v, path, name):
+    return v != TOP and v[0] == "adt" and v[1] == path and v[3] == name
+
+
+def _known_adt(v, path, what):
+    if v == TOP or v[0] != "adt" or v[1] != path:
+        raise _Abort("top", "%s of an unknown value" % what)
+    return v
+
+
+@pmodel("std::option::Option::<T>::unwrap_or")
+def _opt_unwrap_or(pe, st, args, t):
+    o = _known_adt(args[0], OPTION, "unwrap_or")
+    return o[4][0] if o[3] == "Some" else args[1]
+
+
+@pmodel("std::option::Option::<T>::unwrap_or_else")
+def _opt_unwrap_or_else(pe, st, args, t):
+    o = _known_adt(args[0], OPTION, "unwrap_or_else")
+    return o[4][0] if o[3] == "Some" else pe.invoke_closure(st, args[1], [])
+
+
+@pmodel("std::option::Option::<T>::unwrap_or_default")
+def _opt_unwrap_or_default(pe, st, args, t):
+    o = _known_adt(args[0], OPTION, "unwrap_or_default")
+    if o[3] == "Some":
+        return o[4][0]
+    raise _Abort("top", "unwrap_or_default() of None: default value not modelled")
+
+
+@pmodel("std::option::Option::<T>::ok_or")
+def _opt_ok_or(pe, st, args, t):
+    o = _known_adt(args[0], OPTION, "ok_or")
+    if o[3] == "Some":
+        return ("adt", RESULT, 0, "Ok", (o[4][0],))
+    return ("adt", RESULT, 1, "Err", (args[1],))
+
+
+@pmodel("std::option::Option::<T>::ok_or_else")
+def _opt_ok_or_else(pe, st, args, t):
+    o = _known_adt(args[0], OPTION, "ok_or_else")
+    if o[3] == "Some":
+        return ("adt", RESULT, 0, "Ok", (o[4][0],))
+    return ("adt", RESULT, 1, "Err", (pe.invoke_closure(st, args[1], []),))
+
+
+@pmodel("std::option::Option::<T>::map")
+def _opt_map(pe, st, args, t):
+    o = _known_adt(args[0], OPTION, "map")
+    return some(pe.invoke_closure(st, args[1], [o[4][0]])) if o[3] == "Some" else NONE
+
+
+@pmodel("std::option::Option::<T>::map_or")
+def _opt_map_or(pe, st, args, t):
+    o = _known_adt(args[0], OPTION, "map_or")
+    return pe.invoke_closure(st, args[2], [o[4][0]]) if o[3] == "Some" else args[1]
+
+
+@pmodel("std::option::Option::<T>::filter")
+def _opt_filter(pe, st, args, t):
+    o = _known_adt(args[0], OPTION, "filter")
+    if o[3] == "Some" and _truth(pe.invoke_closure(st, args[1], [("ref", ("const", o[4][0]))]), "Option::filter"):
+        return o
+    return NONE
+
+
+@pmodel("std::option::Option::<T>::unwrap", "std::option::Option::<T>::expect")
+def _opt_unwrap(pe, st, args, t):
+    o = _known_adt(args[0], OPTION, "unwrap")
+    if o[3] == "Some":
+        return o[4][0]
+    raise _Abort("diverge", "unwrap() of None at %s:%s" % (t.get("file"), t.get("line")))
+
+
+@pmodel("std::option::Option::<T>::as_ref")
+def _opt_as_ref(pe, st, args, t):
+    o = _known_adt(_deref(pe, st, args[0]), OPTION, "as_ref")
+    return some(("ref", ("const", o[4][0]))) if o[3] == "Some" else NONE
+
+
+@pmodel("std::result::Result::<T, E>::map_err")
+def _res_map_err(pe, st, args, t):
+    r = _known_adt(args[0], RESULT, "map_err")
+    if r[3] == "Ok":
+        return r
+    return ("adt", RESULT, 1, "Err", (pe.invoke_closure(st, args[1], [r[4][0]]),))
+
+
+@pmodel("<std::result::Result<T, E> as std::ops::Try>::branch")
+def _res_branch(pe, st, args, t):
+    r = _known_adt(args[0], RESULT, "?")
+    if r[3] == "Ok":
+        return ("adt", CFLOW, 0, "Continue", (r[4][0],))
+    return ("adt", CFLOW, 1, "Break", (("adt", RESULT, 1, "Err", (r[4][0],)),))
+
+
+@pmodel("<std::option::Option<T> as std::ops::Try>::branch")
+def _opt_branch(pe, st, args, t):
+    o = _known_adt(args[0], OPTION, "?")
+    if o[3] == "Some":
+        return ("adt", CFLOW, 0, "Continue", (o[4][0],))
+    return ("adt", CFLOW, 1, "Break", (NONE,))
+
+
+@pmodel("<std::result::Result<T, F> as std::ops::FromResidual<std::result::Result<std::convert::Infallible, E>>>::from_residual")
+def _res_from_residual(pe, st, args, t):
+    r = _known_adt(args[0], RESULT, "from_residual")
+    gen = t.get("generics") or []
+    # E -> F conversion is the identity when the two error types coincide; anything else is not modelled
+    if len(gen) >= 3 and gen[1] != gen[2]:
+        raise _Abort("top", "error conversion %s -> %s in `?` not modelled" % (gen[2], gen[1]))
+    return ("adt", RESULT, 1, "Err", (r[4][0],))
+
+
+@pmodel("<std::option::Option<T> as std::ops::FromResidual<std::option::Option<std::convert::Infallible>>>::from_residual")
+def _opt_from_residual(pe, st, args, t):
+    return NONE
 
 
 # --------------------------------------------------------------------------
@@ -1003,7 +1149,8 @@ def _string_pop(pe, st, args, t):
     return some(("char", last))
 
 
-@pmodel("<std::string::String as std::ops::Deref>::deref", "std::string::String::as_str", "std::hint::must_use")
+@pmodel("<std::string::String as std::ops::Deref>::deref", "std::string::String::as_str", "std::hint::must_use",
+        "<std::vec::Vec<T, A> as std::ops::Deref>::deref", "std::vec::Vec::<T, A>::as_slice")
 def _identity(pe, st, args, t):
     return args[0]
 
